@@ -122,6 +122,12 @@ def _subst_term(t, old, new):
 
 def run(ctx):
     model = ctx.model
+    shared.import_rule(ctx, "C07", ("R07.callers", "R07.writers"), "R04.held",
+                       "the rows the allocator reads as `in use` are removed by nothing but "
+                       "their holders' release, the closing of their mailbox or expiry (same "
+                       "rule instances as R07.callers, R07.writers)",
+                       "a nameplate that a side still holds loses its row, so the allocator "
+                       "takes it for free and hands it to another side", minimum=3)
     from .. import roles as _rm3
     shared.r_nocfg(ctx, "R04.nocfg", _rm3.get(model).release_op,
                    "a released nameplate keeps its row under the other setting and is never "
